@@ -145,6 +145,52 @@ def run_prog(shard, spec):
 
 TARGETS = [0x0000, 0x3FFE, 0x3FFF, 0x4000, 0xFFFF, 0x3FFD, 0x0001]
 
+def guard_fast_paths(shard, rom, rom_b):
+    """The Python simulator's block-copy and delay-loop shortcuts (fast_ldir / fast_djnz: trace.py without -v/-m/-M, #SIM):
+    one run() may make thousands of stores; the copy is driven through and around the ROM/RAM boundary and the wrap."""
+    from skoolkit import simutils
+    from skoolkit.simulator import Simulator
+    base = rom + [0] * 0xC000
+    for i in range(0xC000):
+        base[0x4000 + i] = (i * 11 + 5) & 0xFF
+    edges = [0x3FF0, 0x3FFD, 0x3FFE, 0x3FFF, 0x4000, 0x4001, 0x0000, 0xFFFF, 0xFFF8]
+    n = 0
+    for inc, op in ((1, 0xB0), (-1, 0xB8)):
+        for de0 in edges:
+            for bc in (1, 2, 3, 17, 0x41):
+                for hl0 in (0x8000, 0x0000, 0x3FFE, (de0 - inc) & 0xFFFF, 0xFFFE):
+                    for iff in (0, 1):
+                        mem = sims.LogMem(base)
+                        mem.log = []
+                        sim = simutils.from_memory(Simulator, mem, config={'fast_djnz': True, 'fast_ldir': True})
+                        regs = [0x5A] * 30
+                        de = (de0 - inc * (bc // 2)) & 0xFFFF            # the boundary is crossed in the middle of the copy
+                        regs[2], regs[3], regs[4], regs[5], regs[6], regs[7] = bc >> 8, bc & 0xFF, de >> 8, de & 0xFF, hl0 >> 8, hl0 & 0xFF
+                        regs[12], regs[13], regs[24], regs[25], regs[26], regs[27], regs[28] = 0x9000, 0, 0xA000, 1000, iff, 1, 0
+                        list.__setitem__(mem, 0xA000, 0xED)
+                        list.__setitem__(mem, 0xA001, op)
+                        sims.set_regs(sim, regs)
+                        before = list(regs)
+                        try:
+                            sim.run()
+                        except Exception as e:
+                            shard.violation('fast Python simulator raised %r on ED%02X with DE=%d BC=%d HL=%d' % (e, op, de, bc, hl0), {'part': 'guard', 'fast': [op, de, bc, hl0, iff]})
+                            continue
+                        n += 1
+                        err = reg_invariant(before, list(sim.registers))
+                        for a, v in mem.log:
+                            if not (isinstance(v, int) and 0 <= v <= 255):
+                                err = 'memory[%d] = %r' % (a, v)
+                            if a < 0x4000:
+                                err = 'ROM modified at [%d]' % a
+                        if bytes(mem[:0x4000]) != rom_b:
+                            err = 'ROM modified at %s' % [a for a in range(0x4000) if mem[a] != rom[a]][:4]
+                        if err:
+                            shard.violation('fast Python simulator (fast_ldir): %s after one run() of ED%02X with DE=%d BC=%d HL=%d IFF=%d' % (err, op, de, bc, hl0, iff),
+                                            {'part': 'guard', 'fast': [op, de, bc, hl0, iff]})
+                        shard.case(('guard-fast', op, de0, bc, hl0, iff), True)
+    shard.inc('monitor:fast_path_guard_runs', n)
+
 def guard_interrupts(shard, spec, kinds, machine, ms, rom, rom_b):
     """The push made when a maskable interrupt is accepted, with SP on and around the ROM/RAM boundary and the wrap: through
     the accept_interrupt() API and through run(start, stop, interrupts=True) with the clock at the start of a frame."""
@@ -243,6 +289,8 @@ def run_guard(shard, spec):
     storing = set()
     if spec['shard'] == 0:
         guard_interrupts(shard, spec, kinds, machine, ms, rom, rom_b)
+    if spec['shard'] == 1 % spec['of'] and not spec.get('only_c'):
+        guard_fast_paths(shard, rom, rom_b)
     for ci, (table, seq) in enumerate(seqs):
         if ci % spec['of'] != spec['shard']:
             continue
@@ -595,7 +643,7 @@ def run(shard, spec):
 def finalize(agg, tier):
     probs = []
     c = agg['counters']
-    for k in ('monitor:invariant_evaluations', 'monitor:guard_steps', 'monitor:interrupt_pushes', 'observed:interrupt_accepted_sp_moved', 'monitor:port_writes', 'monitor:probe_reads', 'monitor:id_stores', 'observed:ram_stores'):
+    for k in ('monitor:invariant_evaluations', 'monitor:guard_steps', 'monitor:fast_path_guard_runs', 'monitor:interrupt_pushes', 'observed:interrupt_accepted_sp_moved', 'monitor:port_writes', 'monitor:probe_reads', 'monitor:id_stores', 'observed:ram_stores'):
         if not c.get(k):
             probs.append('monitor %s observed nothing' % k)
     if c.get('observed:storing_slot_target_pairs', 0) < 500:
